@@ -132,7 +132,7 @@ DnsnameMatchD(dn, h, D) ==
                  THEN "T" ELSE "F"
 DnsnameMatch(dn, h) == DnsnameMatchD(dn, h, KnownDefects)          \* the code as it is
 \* the input class of D15: the repaired matcher refuses, the case-sensitive prefix test alone explains the match
-AceCase(dn, h) == DnsnameMatchD(dn, h, {}) # "T" /\ DnsnameMatchD(dn, h, {"ACECASE"}) = "T"
+AceCase(dn, h) == DnsnameMatchD(dn, h, {"ACECASE"}) = "T" /\ DnsnameMatchD(dn, h, {}) # "T"
 
 -----------------------------------------------------------------------------
 (* Typed entries, hosts, certificates                                         *)
